@@ -28,7 +28,7 @@ import (
 type rInv struct {
 	Out   string `json:"out"` // err | panic | nil
 	Reset bool   `json:"reset,omitempty"`
-	Dur   int64  `json:"dur,omitempty"` // virtual ns the invocation lasts
+	Dur   int64  `json:"dur,omitempty"`   // virtual ns the invocation lasts
 	Track bool   `json:"track,omitempty"` // controller only: the invocation enables output tracking before it ends
 }
 
@@ -272,6 +272,29 @@ func (f *failingWatchState) WatchKindAggregated(ctx context.Context, kind resour
 	return nil
 }
 
+// slowStopper takes a (virtual) second to wind down after cancellation and then issues a last write: Run may only
+// return once it has finished.
+type slowStopper struct {
+	done atomic.Bool
+}
+
+func (s *slowStopper) Name() string               { return "slowstop" }
+func (s *slowStopper) Inputs() []controller.Input { return nil }
+func (s *slowStopper) Outputs() []controller.Output {
+	return []controller.Output{{Type: "L", Kind: controller.OutputExclusive}}
+}
+
+func (s *slowStopper) Run(ctx context.Context, r controller.Runtime, _ *zap.Logger) error {
+	<-ctx.Done()
+	time.Sleep(time.Second)
+
+	r.Create(context.Background(), newRes("n1", "L", "last-gasp", "x")) //nolint:errcheck
+
+	s.done.Store(true)
+
+	return nil
+}
+
 func runWatchErrCase(t *testing.T, n int) (problems []string) {
 	synctest.Test(t, func(t *testing.T) {
 		ctx, cancel := context.WithCancel(context.Background())
@@ -294,15 +317,29 @@ func runWatchErrCase(t *testing.T, n int) (problems []string) {
 			t.Fatal(err)
 		}
 
+		slow := &slowStopper{}
+		if err := rt.RegisterController(slow); err != nil {
+			t.Fatal(err)
+		}
+
 		var (
-			runErr   error
-			returned atomic.Bool
+			runErr         error
+			returned       atomic.Bool
+			stoppedAtRet   bool
+			lastGaspAtRet  bool
+			lastGaspExists = func() bool {
+				_, err := inner.Get(context.Background(), resource.NewMetadata("n1", "L", "last-gasp", resource.VersionUndefined))
+
+				return err == nil
+			}
 		)
 
 		done := make(chan struct{})
 
 		go func() {
 			runErr = rt.Run(ctx)
+			stoppedAtRet = slow.done.Load()
+			lastGaspAtRet = lastGaspExists()
 			returned.Store(true)
 			close(done)
 		}()
@@ -318,7 +355,7 @@ func runWatchErrCase(t *testing.T, n int) (problems []string) {
 		synctest.Wait()
 		close(fw.fail)
 		synctest.Wait()
-		time.Sleep(time.Second)
+		time.Sleep(3 * time.Second) // the slow stopper needs one second after the cancellation
 		synctest.Wait()
 
 		if !returned.Load() {
@@ -332,6 +369,18 @@ func runWatchErrCase(t *testing.T, n int) (problems []string) {
 
 		if runErr == nil || !strings.Contains(runErr.Error(), "injected watch failure") {
 			problems = append(problems, fmt.Sprintf("watch-error-not-propagated: Run returned %v instead of the watch error", runErr))
+		}
+
+		// Run returns with every controller goroutine stopped and no write issued afterwards
+		if !stoppedAtRet {
+			problems = append(problems, "controller-running-after-return: Run returned the watch error while a controller was still winding down")
+		}
+
+		time.Sleep(5 * time.Second)
+		synctest.Wait()
+
+		if !lastGaspAtRet && lastGaspExists() {
+			problems = append(problems, "write-after-return: a controller wrote a resource after Run had returned the watch error")
 		}
 
 		// nothing may run on stale notifications afterwards
